@@ -37,13 +37,20 @@ def locals_of(fn):
     return {x for x in out if x not in params and x not in banned and not x.startswith('__')}
 
 
+OPAQUE = os.environ.get('RENAME_OPAQUE', '1') != '0'
+
+
 class Rename(ast.NodeTransformer):
+    """Renames to names that carry no meaning (`zq0`, `zq1`, ...), so that a rule keyed on a prefix or suffix of a local name
+    (`left_...`, `..._u`) loses its handle as well."""
+
     def __init__(self, names):
         self.names = names
+        self.map = {n: (f'zq{i}' if OPAQUE else n + '_q') for i, n in enumerate(sorted(names))}
 
     def visit_Name(self, n):
         if n.id in self.names:
-            n.id = n.id + '_q'
+            n.id = self.map[n.id]
         return n
 
     def _shadowing(self, node):
